@@ -211,3 +211,17 @@ Theorem C03_reencoding_without_the_hypothesis : forall pf pretty v d,
   parse_value (render pf pretty 0 v) = Ok d -> d = unsign v /\ cmp_value d v = Eq /\ (d = v <-> unsigned_ints v = true).
 Proof. exact reencode_parsed_rendering_any. Qed.
 Print Assumptions C03_reencoding_without_the_hypothesis.
+
+(* an argument that is not JSONB (first byte none of 0x80 / 0x40 / 0x20) is not rendered: the empty input gives "null",
+   any other goes through String::from_utf8_lossy (each ill-formed UTF-8 sequence becomes U+FFFD), which changes nothing in
+   valid UTF-8 *)
+From JB Require TextBinProofs.
+Theorem C03_argument_that_is_not_jsonb : forall pf pretty t, is_jsonb t = false ->
+  to_text_w pf pretty t = Ok (match t with [] => NULL_TEXT | _ => Utf8.lossy t end).
+Proof. exact TextBinProofs.to_text_not_jsonb. Qed.
+Print Assumptions C03_argument_that_is_not_jsonb.
+Theorem C03_lossy_keeps_valid_utf8 : forall s, Utf8.utf8_valid s = true -> Utf8.lossy s = s.
+Proof. exact lossy_valid. Qed.
+Print Assumptions C03_lossy_keeps_valid_utf8.
+Example C03_lossy_example : to_string_w [34; 255; 34] = Ok [34; 239; 191; 189; 34].
+Proof. vm_compute. reflexivity. Qed.
